@@ -33,12 +33,19 @@
      (operator_combining.go:1076-1085): FULL statement "after an external Unsubscribe every subscribed
      source is released" fails — `race_sync_winner_witness`; it holds when all sources are hot
      (`race_cut_releases_partial`).
+   * TakeUntil under true concurrency (sources on different goroutines): the signal's callback raises the
+     flag and only then completes the destination (operator_filter.go:537-540); in between the source can
+     have a value skipped and deliver its own terminal. FULL statement "the output is the definition's
+     output for SOME compatible arrival order" fails — `takeUntil_concurrent_window_witness` over the
+     micro-step model RoModel/Multi/Micro.lean (found by the free-running search, replayed on the real code by
+     `kind=multipark`). The logical theorems above are unaffected (each notification processed to quiescence).
 -/
 import RoProofs.MultiUntil
 import RoProofs.MultiSample
 import RoProofs.MultiRace
 import RoProofs.MultiMerge
 import RoProofs.MultiOrder
+import RoProofs.MultiMergeAll
 import RoModel.Multi.Micro
 namespace Ro.C05a
 open Ro Ro.Multi
@@ -101,6 +108,21 @@ theorem merge_complete (sub : Ctx) (p q : List (MEvent α)) (live k : Nat) (c : 
     (hne : noError p = true) (hc : completes p + 1 = live) :
     Spec.merge sub live (p ++ (k, .complete c) :: q) = valNotifs p ++ [.complete sub] :=
   Ro.Multi.merge_complete sub p q live k c hne hc
+
+/-! ## MergeAll / MergeMap* with a hot outer source
+
+Source 0 is the outer observable; its `i`-th value `v` (context `c`) stands for the inner source
+`(proj c v i).2`, subscribed with context `(proj c v i).1` (for MergeMapIWithContext `proj` is the user's
+projection; for MergeAll it is `fun c v _ => (c, v)`). Inner sources are subscribed when the value that
+names them arrives, anywhere in the arrival order; what a hot inner source sent before is lost.
+Hypothesis: the outer never names a source twice (`freshNames`; a probe subscribed twice is outside
+the model). -/
+
+theorem mergeAll (proj : Ctx → α → Nat → Ctx × Nat) (scripts : List (List (Notif α))) (sub : Ctx) (order : List Nat)
+    (hf : freshNames proj (fun k => k == 0) (fun _ => false) 0 (eventsOf (Sources.hot scripts) order) = true) :
+    (runMulti (mergeAllM proj) (Sources.hot scripts) sub order).out =
+      Spec.mergeAll 1 Ctx.nil (Spec.heard proj (fun k => k == 0) (fun _ => false) 0 (eventsOf (Sources.hot scripts) order)) :=
+  mergeAll_spec proj _ (hot_sync scripts) sub _ hf
 
 /-! ## Race -/
 
@@ -258,6 +280,14 @@ example : (runMulti mergeM (mergeSources { marks := [7] } s3) { marks := [7] } [
     [.next (wc 1) 21, .next (wc 1) 11, .next (wc 1) 31, .next (wc 2) 22, .error (wc 2) (.user 3)] := by decide
 example : (runMulti mergeM (mergeSources { marks := [7] } (s3.take 2)) { marks := [7] } [2, 1, 1, 2, 2]).out =
     [.next (wc 1) 21, .next (wc 1) 11, .next (wc 2) 22, .complete { marks := [7] }] := by decide
+def mmProj (c : Ctx) (v : Int) (i : Nat) : Ctx × Nat := (c.tag (40 + i), v.toNat)
+def sMM : List (List (Notif Int)) :=
+  [[.next (wc 1) 2, .next (wc 2) 1, .complete (wc 3)], [.next (wc 1) 21, .complete (wc 2)], [.next (wc 1) 31, .complete (wc 2)]]
+example : freshNames mmProj (fun k => k == 0) (fun _ => false) 0 (eventsOf (Sources.hot sMM) [0, 2, 0, 1, 0, 1, 2]) = true := by decide
+example : (runMulti (mergeAllM mmProj) (Sources.hot sMM) { marks := [7] } [0, 2, 0, 1, 0, 1, 2]).out =
+    [.next (wc 1) 31, .next (wc 1) 21, .complete (wc 3)] := by decide
+example : Spec.mergeAll 1 Ctx.nil (Spec.heard mmProj (fun k => k == 0) (fun _ => false) 0 (eventsOf (Sources.hot sMM) [0, 2, 0, 1, 0, 1, 2])) =
+    [.next (wc 1) 31, .next (wc 1) 21, .complete (wc 3)] := by decide
 example : (runMulti (raceM 3) (Sources.hot s3) { marks := [7] } [1, 0, 2, 1, 1, 0]).out =
     [.next (wc 1) 21, .next (wc 2) 22, .complete (wc 3)] := by decide
 example : Spec.race (Spec.restrict (below 3) (eventsOf (Sources.hot s3) [1, 0, 2, 1, 1, 0])) =
@@ -279,6 +309,7 @@ end Ro.C05a
 #print axioms Ro.C05a.merge_all_values
 #print axioms Ro.C05a.merge_error
 #print axioms Ro.C05a.merge_complete
+#print axioms Ro.C05a.mergeAll
 #print axioms Ro.C05a.race
 #print axioms Ro.C05a.race_releases
 #print axioms Ro.C05a.race_losers_released
